@@ -400,6 +400,10 @@ fn qdec(input: &[u8], max: u64) -> Value {
 
 /// verdict-style expectations: {"v":"ok",...} must match; {"v":"reject"} must fail; {"v":"either",...} may fail, else must match
 fn verdict_agree(exp: &Value, got: &Value) -> bool {
+    // a panic is never an acceptable way of refusing an input
+    if got.get("panic").is_some() {
+        return false;
+    }
     let ok = got["ok"] == true;
     let same = || exp.as_object().map(|m| m.iter().all(|(k, v)| k == "v" || &got[k] == v)).unwrap_or(false);
     match exp["v"].as_str().unwrap_or("") {
@@ -456,7 +460,7 @@ pub fn run_vectors(inp: &str, out: &str) -> Result<(), String> {
             writeln!(w, "{}", json!({"rec": rec})).map_err(|e| e.to_string())?;
             continue;
         }
-        let agree = if v["fn"] == "frames" { frames_agree(&v, &got) } else if v["exp"].get("v").is_some() { verdict_agree(&v["exp"], &got) } else { got == v["exp"] };
+        let agree = if got.get("panic").is_some() { false } else if v["fn"] == "frames" { frames_agree(&v, &got) } else if v["exp"].get("v").is_some() { verdict_agree(&v["exp"], &got) } else { got == v["exp"] };
         if !agree {
             bad += 1;
             writeln!(w, "{}", json!({"i": i + 1, "ok": false, "vec": v, "got": got})).map_err(|e| e.to_string())?;
